@@ -530,6 +530,7 @@ func init() {
 		for _, n := range []int{0, 1, 64, 65, 100, 125} {
 			for v := 0; v < 2; v++ {
 				c17Z(c, "readmessage", n, v)
+				c17Z(c, "readmessage-recycle", n, v)
 			}
 		}
 		for _, name := range []string{"writeclient", "writeserver", "writethrough", "writer", "cipherwriter"} {
@@ -769,6 +770,41 @@ func c17Z(c *ctx, name string, n, variant int) {
 	c17Setup()
 	status, intact, aliased := "ok", true, false
 	st := guarded(func() {
+		if name == "readmessage-recycle" {
+			// the []Message slice is recycled (m = m[:0], the idiom of a read loop) while the application still
+			// holds the payloads it was given earlier: later calls must not build their messages in that memory
+			side := byte(1 + variant)
+			var wire []byte
+			var want [][]byte
+			for k := 0; k < 6; k++ {
+				sz := n - k
+				if sz < 0 {
+					sz = 0
+				}
+				f := c.mkFrame(side, true, 2, sz)
+				wire = append(wire, wireOf([]sframe{f})...)
+				want = append(want, f.payload)
+			}
+			src := bytes.NewReader(wire)
+			var msgs []wsutil.Message
+			var held [][]byte
+			for k := 0; k < 6; k++ {
+				var err error
+				msgs, err = wsutil.ReadMessage(src, ws.State(side), msgs[:0])
+				if err != nil || len(msgs) != 1 {
+					status = "readerr"
+					return
+				}
+				held = append(held, msgs[0].Payload)
+				c17Poison()
+			}
+			for k := range held {
+				if !bytes.Equal(held[k], want[k]) {
+					intact = false
+				}
+			}
+			return
+		}
 		if name == "readmessage" {
 			side := byte(1 + variant)
 			ctl := c.mkFrame(side, true, 9, n)
